@@ -40,7 +40,7 @@ func gen(r *vh.Rand) string {
 	}
 	bs := make([]be, n)
 	style := r.Intn(5)
-	hugeK := 1 << uint(r.Range(14, 24))
+	hugeK := 1 << uint(r.Range(12, 22))
 	ratioN, ratioD := r.Range(0, 4), r.Range(1, 3)
 	for i := range bs {
 		var w, c int
@@ -151,8 +151,8 @@ func pick2(r *vh.Rand, a, b int) int {
 }
 
 func setConn(b *backend.BfeBackend, n int) {
-	if n > 1000 || n < -1000 {
-		b.VerifC04SetConnNum(n)
+	if d := b.ConnNum() - n; d > 1000 || d < -1000 {
+		b.VerifC04SetConnNum(n) // far away: the Inc/DecConnNum loop would take minutes
 		return
 	}
 	for b.ConnNum() < n {
